@@ -37,7 +37,9 @@ STRVAL = {'cmd': b'from-the-command-line', 'cfg': b'from-the-config-file'}
 class World:
     """one symbolic world: which options are given where (Bool symbols), with which values (symbols of the option's type)"""
     def __init__(s, reg, strmode):
-        s.reg = reg; s.strmode = strmode          # strmode: where string / vector valued options are given: 'none' | 'cmd' | 'cfg' | 'both'
+        s.reg = reg          # strmode: where string / vector valued options are given: 'none' | 'cmd' | 'cfg' | 'both'; suffix '-null': the string options are given as "/dev/null" (the documented "no file")
+        s.null = strmode.endswith('-null'); strmode = strmode.replace('-null', ''); s.strmode = strmode
+        s.sv = {'cmd': b'/dev/null', 'cfg': b'/dev/null'} if s.null else dict(STRVAL)
         s.given = {'cmd': {}, 'cfg': {}}; s.val = {'cmd': {}, 'cfg': {}}; s.assume = []
         for kind, g in (('cmd', 'cmdline'), ('cfg', 'cfgfile')):
             for n, o in reg[g].items():
@@ -45,7 +47,7 @@ class World:
                     s.given[kind][n] = z3.Bool('%s_given_%s' % (kind, n)); s.val[kind][n] = mksym('%s_val_%s' % (kind, n), o.ty)
                     if o.ty == 'b': s.assume.append(z3.ULE(s.val[kind][n], 1))
                 elif o.ty in ('str', 'vf32') and n != 'config':
-                    s.given[kind][n] = strmode in (kind, 'both'); s.val[kind][n] = STRVAL[kind]
+                    s.given[kind][n] = strmode in (kind, 'both'); s.val[kind][n] = s.sv[kind] if o.ty == 'str' else STRVAL[kind]
                 else: s.given[kind][n] = False; s.val[kind][n] = None      # flags (help, version, ...), config, untyped: fixed by the scenario
 
 def install_model(ex, R, reg, W, scen):
@@ -264,8 +266,8 @@ def concrete_world(reg, m, W, scen, only=None):
                 else: out.append('%s=%s' % (n, t))
             elif gv is True:
                 if o.ty == 'str':
-                    if kind == 'cmd': out.extend(['--' + n, STRVAL[kind].decode()])
-                    else: out.append('%s=%s' % (n, STRVAL[kind].decode()))
+                    if kind == 'cmd': out.extend(['--' + n, W.sv[kind].decode()])
+                    else: out.append('%s=%s' % (n, W.sv[kind].decode()))
                 elif o.ty == 'vf32':
                     if kind == 'cmd': out.extend(['--' + n, '0.5', '0.25'])
                     else: out.extend(['%s=0.125' % n, '%s=0.0625' % n])
@@ -370,6 +372,10 @@ def job_parse(res, scen, strmode):
             if o.ty not in ('str', 'vf32') or n == 'config' or not o.store_to: continue
             incmd = W.given['cmd'].get(n) is True; incfg = scen == 'cfg' and W.given['cfg'].get(n) is True
             want = STRVAL['cmd'] if incmd else (STRVAL['cfg'] if incfg else None)
+            if o.ty == 'str' and want is not None:
+                want = W.sv['cmd'] if incmd else W.sv['cfg']
+                # "/dev/null" is the documented way to say "no file" for the start distribution (the program treats the results file the same way): it means that whichever source it comes from
+                if want == b'/dev/null' and n in ('InitialDistFile', 'output'): want = b''
             if o.ty == 'str':
                 gotb = _str_bytes(ex, s, o.store_to)
                 if want is None:
@@ -379,8 +385,8 @@ def job_parse(res, scen, strmode):
             else:
                 gotv = s.extra.get('vec', {}).get(o.store_to); ok = gotv == want
             res.obs.append(Ob('%s: effective value of "%s" (%s) is the one from %s' % (tag, n, o.ty, 'the command line' if incmd else ('the config file' if incfg else 'the default')), 'holds' if ok else 'violated', key='precedence-string',
-                              cex=None if ok else {'replay': 'parse', 'scen': scen, 'option': n, 'cmd': sum([['--' + x] + ([STRVAL['cmd'].decode()] if o.ty == 'str' else ['0.5', '0.25']) for x in [n] if incmd], []),
-                                                            'cfg': (['%s=%s' % (n, STRVAL['cfg'].decode())] if o.ty == 'str' else ['%s=0.125' % n, '%s=0.0625' % n]) if (scen == 'cfg' and W.given['cfg'].get(n) is True) else []}))
+                              cex=None if ok else {'replay': 'parse', 'scen': scen, 'option': n, 'cmd': sum([['--' + x] + ([W.sv['cmd'].decode()] if o.ty == 'str' else ['0.5', '0.25']) for x in [n] if incmd], []),
+                                                            'cfg': (['%s=%s' % (n, W.sv['cfg'].decode())] if o.ty == 'str' else ['%s=0.125' % n, '%s=0.0625' % n]) if (scen == 'cfg' and W.given['cfg'].get(n) is True) else []}))
     # non-vacuity: the config-file value of an option is reachable as effective value
     s = run_paths_[0]
     if scen == 'cfg':
@@ -397,6 +403,14 @@ def job_registry(res):
         a, b = reg['cfgfile'][n], reg['cmdline'][n]
         ok = a.store_to == b.store_to and a.ty == b.ty
         res.obs.append(Ob('option "%s" is bound to the same variable, with the same type, in the command-line and the config-file group' % n, 'holds' if ok else 'violated', key='registry-binding'))
+    # value types: the documented reading of a value is its number / truth value / text; an option declared with a character type is read by boost as ONE CHARACTER ("1" becomes 49, "10" is rejected),
+    # a type the contract model does not know cannot be decided
+    for g in ('cmdline', 'cfgfile'):
+        for n, o in sorted(reg[g].items()):
+            if not o.store_to: continue
+            if o.ty == 'other': raise Unsupported('option "%s" has a value type outside the contract model' % n)
+            res.obs.append(Ob('option "%s" (%s group) is read as a %s' % (n, g, {'c8': 'single character'}.get(o.ty, 'number / truth value / text')), 'violated' if o.ty == 'c8' else 'holds', key='registry-type',
+                              cex=None if o.ty != 'c8' else {'replay': 'parse-char', 'option': n, 'group': g}))
     al = alias_groups(reg)
     want = {'SynchrotronFrequency': ['SyncFreq'], 'AcceleratingVoltage': ['RFVoltage'], 'StepsPerTs': ['steps']}
     for c, ls in want.items():
@@ -525,6 +539,10 @@ def job_main_exit(res):
 def replayer(bld):
     bld = parse_build()
     def rp(path, c):
+        if c.get('replay') == 'parse-char':
+            n = c['option']; nat = native_parse(bld, 'cfg', ['--' + n, '1'] if c['group'] == 'cmdline' else [], ['%s=1' % n] if c['group'] != 'cmdline' else [])
+            ty, bits = nat['var'].get(n, ('?', '0')); got = int(bits, 16) if ty != '?' else None
+            return (got != 1, 'native parse() of "%s 1": the bound variable holds %s' % (n, got))
         if c.get('replay') != 'parse-error':
             bld_, mod, snap, R, reg, ex, st, W = setup(c['scen'], 'none')
             nat = native_parse(bld, c['scen'], c.get('cmd', []), c.get('cfg', []))
@@ -532,6 +550,10 @@ def replayer(bld):
             sc = c['scen']
             nat = native_parse(bld, 'cfg' if sc == 'cfgerror' else 'nocfg', ['--NoSuchOption', '1'] if sc == 'cmderror' else [], ['NoSuchOption=1'] if sc == 'cfgerror' else [])
             return (nat['threw'] == 0, 'native parse() with an unknown option %s: threw %d, returned %d' % ('in the config file' if sc == 'cfgerror' else 'on the command line', nat['threw'], nat['ret']))
+        if c.get('replay') == 'parse-char':
+            n = c['option']; nat = native_parse(bld, 'cfg', ['--' + n, '1'] if c['group'] == 'cmdline' else [], ['%s=1' % n] if c['group'] != 'cmdline' else [])
+            ty, bits = nat['var'].get(n, ('?', '0')); got = int(bits, 16) if ty != '?' else None
+            return (got != 1, 'native parse() of "%s 1": the bound variable holds %s' % (n, got))
         if 'expect_ret' in c: return (nat['ret'] != c['expect_ret'], 'native parse() returned %d (threw %d)' % (nat['ret'], nat['threw']))
         n = c['option']; al = alias_groups(reg)
         o = dict(reg['cfgfile'], **reg['cmdline'])[n]
@@ -554,6 +576,7 @@ def replayer(bld):
         if ty == 'str':
             got = bytes.fromhex(bits[1:]).decode();
             if want is None: return (False, 'string default case is not replayed')
+            if want == '/dev/null' and n in ('InitialDistFile', 'output'): want = ''
             return (got != want, 'native effective value of %s is %r, the %s gives %r' % (n, got, src, want))
         got = bits_to_num(ty, bits)
         if want is None:
@@ -569,7 +592,7 @@ def main(tier):
     chk = Check('C20', tier, '4/C20')
     jobs = [(job_registry, ()), (job_calibrate, ()), (job_main_exit, ())]
     for scen in ('cfg', 'nocfg'):
-        for sm in (('none', 'cmd', 'cfg', 'both') if scen == 'cfg' else ('none', 'cmd')): jobs.append((job_parse, (scen, sm)))
+        for sm in (('none', 'cmd', 'cfg', 'both', 'cmd-null', 'cfg-null') if scen == 'cfg' else ('none', 'cmd', 'cmd-null')): jobs.append((job_parse, (scen, sm)))
     jobs.append((job_parse, ('missing', 'none'))); jobs.append((job_parse, ('cfgerror', 'none'))); jobs.append((job_parse, ('cmderror', 'none')))
     for f in ('help', 'version', 'copyright', 'buildinfo'): jobs.append((job_parse, ('flag:' + f, 'none')))
     chk.bounds = {'options': 'every scalar option of the registry symbolic at once: given / not given on the command line and in the config file (Bool each), values arbitrary (one symbol per source)',
